@@ -79,51 +79,9 @@ fn constructors(tier: Tier, seed: u64) -> Value {
 }
 
 fn extra(tier: Tier, seed: u64) -> Value {
-    let mut v = constructors(tier, seed);
+    let v = constructors(tier, seed);
     // the same histories in the build without debug assertions / overflow checks
-    if std::env::var_os("VERIF_C06_TWIN").is_none() {
-        let exe = format!("{}/sim/target/release/focasim", crate::frame::verif_root());
-        let out = std::process::Command::new(&exe)
-            .args(["C06", "--tier", tier.name()])
-            .env("VERIF_C06_TWIN", "1")
-            .env("VERIF_EVIDENCE_SUFFIX", ".release-profile")
-            .env("VERIF_SEED", seed.to_string())
-            .output();
-        match out {
-            Ok(o) => {
-                let text = String::from_utf8_lossy(&o.stdout).to_string();
-                let mut lines: Vec<String> = v["lines"].as_array().cloned().unwrap_or_default().iter().filter_map(|x| x.as_str().map(|s| s.to_string())).collect();
-                let mut viol = v["violations"].as_u64().unwrap_or(0);
-                for l in text.lines() {
-                    if l.starts_with("VIOLATION ") {
-                        lines.push(l.to_string());
-                        viol += 1;
-                    }
-                }
-                let ev_path = format!("{}/evidence/C06.release-profile.json", crate::frame::verif_root());
-                let ev: Value = std::fs::read_to_string(&ev_path).ok().and_then(|s| serde_json::from_str(&s).ok()).unwrap_or(Value::Null);
-                let _ = std::fs::remove_file(&ev_path);
-                v["release_profile_twin"] = json!({
-                    "profile": "release (debug-assertions off, overflow-checks off)",
-                    "exit": o.status.code(),
-                    "evaluations": ev["coverage"]["evaluations"],
-                    "distinct_nontrivial": ev["coverage"]["distinct_nontrivial"],
-                    "calls": ev["coverage"]["counters"]["calls"],
-                    "violations": ev["violations"],
-                });
-                v["lines"] = json!(lines);
-                v["violations"] = json!(viol);
-                if o.status.code() == Some(2) || o.status.code().is_none() {
-                    v["harness_error"] = json!(format!("release twin failed: {}", String::from_utf8_lossy(&o.stderr)));
-                }
-            }
-            Err(e) => {
-                v["harness_error"] = json!(format!("cannot run {exe}: {e}"));
-            }
-        }
-        v["profile"] = json!("checked (optimised, debug-assertions on, overflow-checks on)");
-    }
-    v
+    crate::frame::release_twin("C06", tier, seed, v)
 }
 
 pub fn def() -> CheckDef {
